@@ -188,7 +188,8 @@ def spec_no_reuse(draw, **kw):
         revs.append(rev)
     tagd = {}
     if tags:
-        for t in draw(st.lists(st.sampled_from(["t1", "t2", "rel-1.0"]),
+        for t in draw(st.lists(st.sampled_from(["t1", "t2", "rel-1.0", "\u00fc",
+                                                "rel/1.0"]),
                                unique=True, max_size=3)):
             tagd[t] = draw(st.sampled_from([r["id"] for r in revs]))
     return {"revs": revs, "tags": tagd, "skipped_ops": skipped[0]}
